@@ -5,12 +5,12 @@ CONSTANTS
   Nbr <- Four_Nbr
   Bound <- Bound_ab
   VarCols = {"n1", "n4"}
-  SrcSet = {"n1"}
-  SrcSvcs = {"a", "b"}
-  DstSet = {"n4"}
+  SrcSet = {"n1", "n4"}
+  SrcSvcs = {"a"}
+  DstSet = {"n1", "n4"}
   DstSvcs = {"a", "u", "ping"}
-  TTLs = {0, 1, 2, 3, 4}
-  MaxSends = 2
+  TTLs = {0, 1, 2, 3, 4, 5}
+  MaxSends = 1
   DefTTL = 4
 INVARIANTS
   TypeOK
